@@ -24,8 +24,7 @@ RULE = ("record lists = every multiset of m<=M records over a 4-pixel alphabet (
 EXTRA_LEGS = 'bin-id columns of the chunks rotate through int64/uint32/int32/uint16/uint64/int16 (unsorted chunks visited with unsigned ids).'
 BOUNDS = {"quick": "M=3; mergebuf {1,2,1e6} x max_merge {1,2,200} on the symmetric fixed-width line, 3 diagonal combinations for streams with an empty chunk / square mode / variable table; empty-chunk insertions on partitions with <=2 blocks",
           "thorough": "M=4; mergebuf {1,2,3,m,1e6} x max_merge {1,2,3,200} in full for M<=3; at M=4 mergebuf {1,2,4,1e6} x max_merge {1,2,200} on the symmetric fixed-width line and three diagonal combinations for square mode / variable table; empty-chunk insertions everywhere for M<=3"}
-ASSUMPTIONS = ["records repeated inside one chunk are pre-summed by the harness (a chunk must not contain duplicate pixels; combining "
-               "across chunks is what the property is about)", "values are small integers / dyadic rationals: sums are exact"]
+ASSUMPTIONS = ["records repeated inside one chunk are pre-summed by the harness, or (every other such case) handed over raw with dupcheck=False", "values are small integers / dyadic rationals: sums are exact"]
 EXPECT_CLASSES = {"*": ["chunks:1", "chunks:2", "chunks:3", "two-pass", "single-pass", "with-empty-chunk", "cli"]}
 
 ALPHA_SYMM = [(0, 0), (0, 3), (1, 2), (3, 3)]
@@ -64,7 +63,13 @@ def _records(lst, symm):
 IDTYPES = (np.int64, np.uint32, np.int32, np.uint16, np.uint64, np.int16)
 
 
-def _chunk_frame(recs, sort=True, idt=np.int64):
+def _chunk_frame(recs, sort=True, idt=np.int64, presum=True):
+    if not presum:
+        # raw records: a pixel may occur several times in the chunk (only accepted with dupcheck=False)
+        rows = sorted(recs, key=lambda r: r[0], reverse=not sort)
+        return pd.DataFrame({"bin1_id": np.array([r[0][0] for r in rows], dtype=idt), "bin2_id": np.array([r[0][1] for r in rows], dtype=idt),
+                             "count": np.array([r[1]["count"] for r in rows], dtype=np.int64),
+                             "score": np.array([r[1]["score"] for r in rows], dtype=float)})
     acc = {}
     for pix, v in recs:
         if pix in acc:
@@ -130,7 +135,12 @@ def _api(R, unit, tier, only):
                         # with unsorted chunks is visited with an unsigned one at least every other time)
                         idt = IDTYPES[kk % len(IDTYPES)] if srt else IDTYPES[1 + 2 * (kk // 2 % 2)] if kk % 2 else IDTYPES[kk // 2 % len(IDTYPES)]
                         R.cls("idtype:" + np.dtype(idt).name + ("" if srt else ":unsorted"))
-                        chunks = [_chunk_frame([recs[q] for q in blk], sort=srt, idt=idt) for blk in part]
+                        # a block that holds the same pixel twice: every other time its records are handed over RAW, with the duplicate
+                        # check switched off (records of one pixel are combined wherever they meet - inside a chunk or across chunks)
+                        rawdup = kk % 2 == 1 and any(len({recs[q][0] for q in blk}) < len(blk) for blk in part)
+                        if rawdup:
+                            R.cls("raw-repeats-inside-a-chunk")
+                        chunks = [_chunk_frame([recs[q] for q in blk], sort=srt, idt=idt, presum=not rawdup) for blk in part]
                         try:
                             # unsorted chunks: sorting is requested; on every other such case the three validity checks are switched
                             # off as well (the request to sort must not depend on them)
@@ -140,7 +150,7 @@ def _api(R, unit, tier, only):
                             cooler.create_cooler(out, bdf, iter(chunks), columns=["count", "score"], dtypes={"score": float},
                                                  ordered=False, symmetric_upper=symm, mergebuf=buf, max_merge=mm,
                                                  temp_dir=tdir, ensure_sorted=not srt,
-                                                 **({"boundscheck": False, "dupcheck": False, "triucheck": False} if off else {}))
+                                                 **({"boundscheck": False, "dupcheck": False, "triucheck": False} if off else {"dupcheck": False} if rawdup else {}))
                         except Exception as e:
                             R.mismatch("create-raises:" + type(e).__name__, inner, f"{e!s:.300}")
                             e = None
